@@ -28,5 +28,13 @@ def applyParented (h : H) (p c : Nat) : H := addChild (addChild h p c) p c
 def WF (h : H) : Prop :=
   (∀ c p, h.par c = some p ↔ c ∈ h.ch p) ∧ ∀ p, (h.ch p).Nodup
 
+/-- the `EntityParented` handler with its guard -/
+def handle (h : H) (p c : Nat) : H := if h.par c = some p then h else applyParented h p c
+
+/-- one operation of a peer: `(true, p, c)` a handled message, `(false, p, c)` a local `set_parent` -/
+def stepOp (h : H) (o : Bool × Nat × Nat) : H := if o.1 then handle h o.2.1 o.2.2 else addChild h o.2.1 o.2.2
+
+def runOps (h : H) (ops : List (Bool × Nat × Nat)) : H := ops.foldl stepOp h
+
 end Hier
 end BevySync
